@@ -121,9 +121,14 @@ def extract(g, X):
         if not (tr.group(2) == tr2.group(1) == tr3.group(1)):
             raise ValueError("the three trailer keywords differ")
 
-        def entry(head, method):
-            m = re.search(head + r"\s+" + w3 + r"\s*==\s*\"(\w+)\"\s*\{", b)
-            blk = X.item_body(b[m.start():], r"\{", "entry block")
+        # the decision on the third word — an if / else-if chain in any order, or a match — as a table keyword -> block
+        table = X.branches(b[b.index(w3, b.index(words[2])):], w3)
+
+        def entry(method):
+            hits = [(k, blk) for k, blk in table.items() if k is not None and re.search(r"\w+\." + method + r"\(", blk)]
+            if len(hits) != 1:
+                raise ValueError("%s is called for %d keywords" % (method, len(hits)))
+            kw, blk = hits[0]
             call = re.search(r"\w+\." + method + r"\(", blk)
             o = call.end() - 1
             args = X.split_top(blk[o + 1:X.close_of(blk, o)], ",")
@@ -133,9 +138,11 @@ def extract(g, X):
                 ts.append(mm.group(1))
             if len(ts) != 2:
                 raise ValueError(method + " arguments")
-            return m.group(1), ts
-        fk, ft = entry(r"\bif", "add_free_entry")
-        nk, nt = entry(r"\belse\s+if", "add_inuse_entry")
+            return kw, ts
+        fk, ft = entry("add_free_entry")
+        nk, nt = entry("add_inuse_entry")
+        if sorted(k for k in table if k is not None) != sorted([fk, nk]) or not re.search(r"return\s+Err\(|bail!|err!", table.get(None, "")):
+            raise ValueError("entry keywords other than the free / in-use ones, or no error for the rest")
         hdr = re.findall(r"let\s+\w+\s*=\s*t!\(\s*" + lex + r"\.next_as::<(\w+)>\(\)\s*\)", b)
         if len(hdr) != 2:
             raise ValueError("subsection header reads changed")
